@@ -1,0 +1,102 @@
+//! Verification hook (only compiled with `--cfg metrics_verif`).
+//!
+//! Exposes the crate-private [`PayloadWriter`](crate::writer) to an external harness: create a writer, call the four
+//! `write_*` methods with the same optional arguments the real API has, and drain `payloads()` fully or partially.
+//! Nothing here is used by the exporter itself.
+#![allow(missing_docs)]
+
+use metrics::{Key, Label};
+
+use crate::writer::PayloadWriter;
+
+/// A `PayloadWriter` together with the global prefix and global labels the exporter would pass on every call.
+pub struct Writer {
+    inner: PayloadWriter,
+    prefix: Option<String>,
+    global_labels: Vec<Label>,
+}
+
+impl Writer {
+    /// `PayloadWriter::new(max_payload_len, with_length_prefix)`.
+    pub fn new(
+        max_payload_len: usize,
+        with_length_prefix: bool,
+        prefix: Option<String>,
+        global_labels: Vec<Label>,
+    ) -> Self {
+        Self { inner: PayloadWriter::new(max_payload_len, with_length_prefix), prefix, global_labels }
+    }
+
+    /// `write_counter`; returns `(payloads_written, points_dropped)`.
+    pub fn write_counter(&mut self, key: &Key, value: u64, timestamp: Option<u64>) -> (u64, u64) {
+        let r = self.inner.write_counter(
+            key,
+            value,
+            timestamp,
+            self.prefix.as_deref(),
+            &self.global_labels,
+        );
+        (r.payloads_written(), r.points_dropped())
+    }
+
+    /// `write_gauge`; returns `(payloads_written, points_dropped)`.
+    pub fn write_gauge(&mut self, key: &Key, value: f64, timestamp: Option<u64>) -> (u64, u64) {
+        let r = self.inner.write_gauge(
+            key,
+            value,
+            timestamp,
+            self.prefix.as_deref(),
+            &self.global_labels,
+        );
+        (r.payloads_written(), r.points_dropped())
+    }
+
+    /// `write_histogram`; returns `(payloads_written, points_dropped)`.
+    pub fn write_histogram(
+        &mut self,
+        key: &Key,
+        values: &[f64],
+        maybe_sample_rate: Option<f64>,
+    ) -> (u64, u64) {
+        let r = self.inner.write_histogram(
+            key,
+            values.iter().copied(),
+            maybe_sample_rate,
+            self.prefix.as_deref(),
+            &self.global_labels,
+        );
+        (r.payloads_written(), r.points_dropped())
+    }
+
+    /// `write_distribution`; returns `(payloads_written, points_dropped)`.
+    pub fn write_distribution(
+        &mut self,
+        key: &Key,
+        values: &[f64],
+        maybe_sample_rate: Option<f64>,
+    ) -> (u64, u64) {
+        let r = self.inner.write_distribution(
+            key,
+            values.iter().copied(),
+            maybe_sample_rate,
+            self.prefix.as_deref(),
+            &self.global_labels,
+        );
+        (r.payloads_written(), r.points_dropped())
+    }
+
+    /// Calls `payloads()`, takes at most `limit` payloads with `next_payload()` (all of them if `None`), then drops
+    /// the iterator. Returns the payloads taken and `Payloads::len()` as it was before the first `next_payload()`.
+    pub fn drain(&mut self, limit: Option<usize>) -> (Vec<Vec<u8>>, usize) {
+        let mut payloads = self.inner.payloads();
+        let available = payloads.len();
+        let mut out = Vec::new();
+        while limit.map_or(true, |l| out.len() < l) {
+            match payloads.next_payload() {
+                Some(p) => out.push(p.to_vec()),
+                None => break,
+            }
+        }
+        (out, available)
+    }
+}
